@@ -4,3 +4,7 @@ import Generated.Registry
 import Generated.KnnDecision
 import Generated.Seeded
 import Generated.DistSrc
+import Generated.RunCommon
+import Generated.DistSrcRun
+import Generated.SparseSrc
+import Generated.SparseSrcRun
